@@ -649,6 +649,7 @@ type aframe struct {
 }
 
 type astate struct {
+	rels   []ARel
 	frames []*aframe
 	mem    *AMem
 	conds  []string
@@ -675,6 +676,7 @@ func (s *astate) clone() *astate {
 		n.sfacts[k] = v
 	}
 	n.conds = append([]string(nil), s.conds...)
+	n.rels = append([]ARel(nil), s.rels...)
 	n.trace = append([]AEvent(nil), s.trace...)
 	for _, f := range s.frames {
 		nf := *f
@@ -722,6 +724,17 @@ type AOutcome struct {
 	SFacts   map[string][2]int64 // ranges of signed sources
 	Excl     map[string][]int64  // single values a signed source is known not to have
 	Nils     map[string]bool // named values found nil (true) / non-nil (false) by the branches of this path
+	Rels     []ARel          // comparisons of two non-constant values the path branched on
+}
+
+// ARel is a branch on a comparison of two values neither of which is a constant: L Op R was found
+// Taken (true/false). L and R are the values' names in the bit-provenance vocabulary (NameBits),
+// so the same comparison reads the same through locals and helpers.
+type ARel struct {
+	L, R   string
+	Op     token.Token
+	Signed bool
+	Taken  bool
 }
 
 type Exec struct {
@@ -1002,6 +1015,27 @@ func (ex *Exec) run(s *astate) ([]*astate, *AOutcome, error) {
 			t, f := s, s.clone()
 			t.conds = append(t.conds, label+"=T")
 			f.conds = append(f.conds, label+"=F")
+			{
+				rc, neg := cond, false
+				if u, isU := rc.(*ssa.UnOp); isU && u.Op == token.NOT {
+					rc, neg = u.X, true
+				}
+				if bo, isB := rc.(*ssa.BinOp); isB {
+					switch bo.Op {
+					case token.LSS, token.LEQ, token.GTR, token.GEQ, token.EQL, token.NEQ:
+						l, r := ex.val(s, fr, bo.X), ex.val(s, fr, bo.Y)
+						_, lk := l.ConstVal()
+						_, rk := r.ConstVal()
+						if l.K == AInt && r.K == AInt && !lk && !rk {
+							rel := ARel{L: NameBits(l.Bits), R: NameBits(r.Bits), Op: bo.Op, Signed: isSigned(bo.X.Type())}
+							rel.Taken = !neg
+							t.rels = append(t.rels, rel)
+							rel.Taken = neg
+							f.rels = append(f.rels, rel)
+						}
+					}
+				}
+			}
 			ex.refine(t, f, fr, cond)
 			ex.jump(t.frames[len(t.frames)-1], false)
 			ex.jump(f.frames[len(f.frames)-1], true)
@@ -1020,7 +1054,7 @@ func (ex *Exec) run(s *astate) ([]*astate, *AOutcome, error) {
 			}
 			continue
 		case *ssa.Panic:
-			return nil, &AOutcome{Conds: s.conds, Mem: s.mem, Trace: s.trace, Panicked: true, Facts: s.facts, SFacts: s.sfacts, Excl: s.excl, Nils: s.nils}, nil
+			return nil, &AOutcome{Conds: s.conds, Mem: s.mem, Trace: s.trace, Panicked: true, Facts: s.facts, SFacts: s.sfacts, Excl: s.excl, Nils: s.nils, Rels: s.rels}, nil
 		case *ssa.Return:
 			var rets []AVal
 			if s.retVals != nil {
@@ -1038,7 +1072,7 @@ func (ex *Exec) run(s *astate) ([]*astate, *AOutcome, error) {
 				}
 			}
 			if len(s.frames) == 1 {
-				return nil, &AOutcome{Conds: s.conds, Ret: rets, Mem: s.mem, Trace: s.trace, Facts: s.facts, SFacts: s.sfacts, Excl: s.excl, Nils: s.nils}, nil
+				return nil, &AOutcome{Conds: s.conds, Ret: rets, Mem: s.mem, Trace: s.trace, Facts: s.facts, SFacts: s.sfacts, Excl: s.excl, Nils: s.nils, Rels: s.rels}, nil
 			}
 			s.frames = s.frames[:len(s.frames)-1]
 			caller := s.frames[len(s.frames)-1]
@@ -1082,7 +1116,7 @@ func (ex *Exec) run(s *astate) ([]*astate, *AOutcome, error) {
 				return nil, nil, err
 			}
 			if n := len(s.trace); n > 0 && s.trace[n-1].Stop && s.trace[n-1].Site == x {
-				return nil, &AOutcome{Conds: s.conds, Mem: s.mem, Trace: s.trace, Stopped: true, Facts: s.facts, SFacts: s.sfacts, Excl: s.excl, Nils: s.nils}, nil
+				return nil, &AOutcome{Conds: s.conds, Mem: s.mem, Trace: s.trace, Stopped: true, Facts: s.facts, SFacts: s.sfacts, Excl: s.excl, Nils: s.nils, Rels: s.rels}, nil
 			}
 			if entered {
 				continue
@@ -2313,7 +2347,14 @@ func (ex *Exec) slice(s *astate, fr *aframe, x *ssa.Slice) AVal {
 				n = length - lo
 			}
 		}
-		return AVal{K: kind, Path: base, Lo: nlo, Len: n}
+		ln := ""
+		if n < 0 && loK && lo == 0 && x.High != nil && !hiK && kind == ASlice {
+			// x[:h] with a symbolic h: the length has h's name
+			if hv := ex.val(s, fr, x.High); hv.K == AInt && len(hv.Bits) > 0 && !hasMixBits(hv.Bits) {
+				ln = NameBits(hv.Bits)
+			}
+		}
+		return AVal{K: kind, Path: base, Lo: nlo, Len: n, LenName: ln}
 	}
 	switch b.K {
 	case APtr:
